@@ -316,6 +316,14 @@ func runCase(c cfg, h map[int]uint64, ops []string) {
 		}
 	}
 	hf := func(k int) uint64 { return h[k] }
+	// "N" is the pseudo-op that reports a failed construction; it is never executed
+	var real []string
+	for _, op := range ops {
+		if op != "N" {
+			real = append(real, op)
+		}
+	}
+	ops = real
 	w.Begin("%s", c.head(h))
 	var in inst
 	// step 0 creates the tables; step i+1 executes ops[i].  After HANG/PANIC the instance is abandoned
@@ -828,6 +836,68 @@ func clientsLRTable(r *rng.R, states, syms, cells int) {
 	runClient("lrtable", ops)
 }
 
+// invalidCaps: capacities the constructor must reject (not a prime / power of two, or below the minimum),
+// among them squares of primes; the case is the construction alone (result PANIC) or a trivial history.
+func invalidCaps(kind string) {
+	caps := []int{121, 169, 289, 961, 30, 33, 49, 1, 2, 3, 29, 64, 100}
+	for _, cap := range caps {
+		c := defaults(kind)
+		c.cap = cap
+		c.hf = "id"
+		runCase(c, nil, []string{p(0, 1, 1), g(0, 1), "S0", "X0"})
+	}
+}
+
+// squares: initial capacities whose growth or shrink targets lie next to squares of primes and other
+// composites with a large least prime factor (59 -> 118: 121 = 11^2 is skipped for 127; 131 -> 263 -> 526:
+// 529 = 23^2; 239 -> 479 -> 958: 961 = 31^2; 229/233/241 shrink to 114..120: 121).  Under hash functions
+// that put every key into one probe class the table is filled to the limit of every size it reaches, with
+// Get/Delete of an absent colliding key after every Put; a wrong size shows as a hang or a layout mismatch.
+func squares(kind string, thorough bool) {
+	type sc struct{ cap, keys int }
+	grow := []sc{{59, 75}, {131, 300}}
+	shrink := []int{229, 241}
+	if thorough {
+		grow = append(grow, sc{239, 520}, sc{263, 300}, sc{83, 100}, sc{179, 200})
+		shrink = append(shrink, 233, 239, 337, 347)
+	}
+	for _, hf := range []string{"const", "class"} {
+		for _, gc := range grow {
+			c := defaults(kind)
+			c.cap, c.hf = gc.cap, hf
+			var ops []string
+			for i := 0; i < gc.keys; i++ {
+				ops = append(ops, p(0, i, i), g(0, 100000+i), d(0, 200000+i))
+				if i%16 == 0 {
+					ops = append(ops, "X0", "S0")
+				}
+			}
+			ops = append(ops, "X0", "S0", g(0, 0), g(0, gc.keys-1))
+			runCase(c, nil, ops)
+		}
+		for _, cap := range shrink {
+			c := defaults(kind)
+			c.cap, c.hf = cap, hf
+			var ops []string
+			n := cap/8 + 6
+			for i := 0; i < n; i++ {
+				ops = append(ops, p(0, i, i))
+			}
+			for i := 0; i < 8; i++ { // delete down across the shrink threshold
+				ops = append(ops, d(0, i), "X0")
+			}
+			for i := 0; i < cap/2; i++ { // fill the shrunken table to its limit
+				ops = append(ops, p(0, 1000+i, i), g(0, 100000+i), d(0, 200000+i))
+				if i%16 == 0 {
+					ops = append(ops, "X0")
+				}
+			}
+			ops = append(ops, "X0", "S0")
+			runCase(c, nil, ops)
+		}
+	}
+}
+
 func main() {
 	mode := flag.String("mode", "exhaustive", "exhaustive|random|churn|adversarial|clients")
 	tier := flag.String("tier", "quick", "quick|thorough")
@@ -986,6 +1056,13 @@ func main() {
 	case "adversarial":
 		r := rng.FromEnv(4)
 		for _, kind := range ks {
+			// VERIF_C02_NO_SQUARES=1 switches these two generators off (used to self-test the directed search of checks/C02.py)
+			if os.Getenv("VERIF_C02_NO_SQUARES") == "" {
+				if kind == "quadratic" || kind == "double" {
+					squares(kind, thorough)
+				}
+				invalidCaps(kind)
+			}
 			for _, c := range variants(kind, *tier) {
 				for _, hf := range hashFamilies {
 					c.hf = hf
